@@ -9,6 +9,7 @@ import (
 	"encoding/hex"
 	"fmt"
 	"os"
+	"path/filepath"
 	"strconv"
 	"strings"
 	"time"
@@ -74,6 +75,8 @@ type session struct {
 	streams map[string][]*iavl.ExportNode
 	exporters map[string]*iavl.Exporter
 	keepStreams bool
+	legacyPhase bool
+	legacyID    string
 }
 
 var workdir string
@@ -165,6 +168,34 @@ func (s *session) newTree() *iavl.MutableTree {
 		opts = append(opts, iavl.AsyncPruningOption(true))
 	}
 	return iavl.NewMutableTree(s.rec, s.cfg.cache, !s.cfg.fast, iavl.NewNopLogger(), opts...)
+}
+
+// setCfgLenient: configuration given during the legacy phase (the backend is fixed by `adopt`)
+func (s *session) setCfgLenient(args []string) {
+	var rest []string
+	for _, a := range args {
+		if !strings.HasPrefix(a, "db=") {
+			rest = append(rest, a)
+		}
+	}
+	s.setCfg(rest)
+}
+
+func copyDir(src, dst string) error {
+	return filepath.Walk(src, func(p string, info os.FileInfo, err error) error {
+		if err != nil {
+			return err
+		}
+		rel, _ := filepath.Rel(src, p)
+		if info.IsDir() {
+			return os.MkdirAll(filepath.Join(dst, rel), 0o755)
+		}
+		b, err := os.ReadFile(p)
+		if err != nil {
+			return err
+		}
+		return os.WriteFile(filepath.Join(dst, rel), b, 0o644)
+	})
 }
 
 func (s *session) setCfg(args []string) {
@@ -528,11 +559,47 @@ func parseStream(s string) []*iavl.ExportNode {
 
 func (s *session) exec(args []string) string {
 	t := s.tree
+	if s.legacyPhase && args[0] != "adopt" && args[0] != "new" {
+		if args[0] == "cfg" {
+			s.setCfgLenient(args[1:])
+		}
+		return "" // executed by the legacy library (harness/legacygen)
+	}
 	switch args[0] {
 	case "new":
 		s.keepStreams = false
 		s.reset()
+		if len(args) > 2 && args[2] == "legacy" {
+			s.legacyPhase = true
+			s.legacyID = args[1]
+			return ""
+		}
 		return "ok"
+	case "adopt": // continue on the database the legacy library wrote for this history
+		s.legacyPhase = false
+		d := filepath.Join(os.Getenv("VERIF_LEGACY_DIR"), s.legacyID)
+		// work on a copy: the original may be adopted again by a replay
+		cpDir, err := os.MkdirTemp(workdir, "legacy")
+		if err != nil {
+			panic(err)
+		}
+		if err := copyDir(d, cpDir); err != nil {
+			return "err:nodb"
+		}
+		s.dir = cpDir
+		l, err := idb.NewGoLevelDB("test", cpDir)
+		if err != nil {
+			return "err:open"
+		}
+		s.backend = l
+		s.rec = newRecDB(s.backend)
+		s.cfg.db = "ldb"
+		s.tree = s.newTree()
+		v, err := s.tree.Load()
+		if err != nil {
+			return "err"
+		}
+		return fmt.Sprintf("ver=%d", v)
 	case "fresh": // a new empty database; exported streams are kept
 		s.keepStreams = true
 		s.reset()
@@ -923,8 +990,10 @@ func runExec(path string) {
 		}
 		args := strings.Fields(line)
 		res := guarded(out, func() string { return s.exec(args) })
-		fmt.Fprintf(out, "%d %s => %s\n", lineNo, line, res)
-		out.Flush()
+		if res != "" {
+			fmt.Fprintf(out, "%d %s => %s\n", lineNo, line, res)
+			out.Flush()
+		}
 	}
 	s.reset()
 }
